@@ -483,6 +483,12 @@ theorem lemma_hadd (m : HMap) (k v : Bytes) (hm : Clean m) (hv : VClean v) : Cle
 theorem lemma_header (m : HMap) (k v : Bytes) (hm : Clean m) : Clean (header m k v) :=
   lemma_hset m k _ hm (lemma_sanitize v)
 
+theorem lemma_fold_header (m : HMap) (k : Bytes) (vs : List Bytes) (hm : Clean m) :
+    Clean (vs.foldl (fun m v => header m k v) m) := by
+  induction vs generalizing m with
+  | nil => exact hm
+  | cons v rest ih => exact ih _ (lemma_header m k v hm)
+
 /-- what the external parameters must satisfy: `http.SetCookie` writes a sanitised cookie line -/
 def OpOK : Op → Prop
   | .setCookie s => VClean s
@@ -503,6 +509,8 @@ theorem lemma_apply (m : HMap) (op : Op) (hm : Clean m) (hop : OpOK op) : Clean 
     · exact lemma_hadd _ _ _ hm hop
   · exact lemma_header _ _ _ hm
   · unfold reader; simp only []; split <;> first | exact lemma_header _ _ _ hm | exact lemma_header _ _ _ (lemma_header _ _ _ hm)
+  · unfold failHeaders
+    exact lemma_header _ _ _ (lemma_fold_header _ _ _ hm)
 
 /-- **no_crlf.** After any script of setter calls (Header, AppendHeader, Vary, Link, Redirect/Location,
     ContentType, Download, MethodNotAllowed, SetCookie, Data, DataFromReader) on a response whose
